@@ -24,12 +24,14 @@ import (
 )
 
 // Extended ID space: 0..11 = uni.OID(k); 12..23 = uni.OID(k-12) with byte 16 set.
-// IDs 10 and 11 are reserved for parents that are known only from headers
-// carried by children.
+// Base IDs 3 and 4 are reserved for parents that are known only from headers
+// carried by children. They are chosen so that their raw byte order (o3 < o4)
+// and the order of their Base58 strings (43 vs 44 characters: "8.." > "2..")
+// disagree, which makes merging by split.parent sensitive to text comparison.
 const (
 	NExt       = 24
-	ParentA    = 10
-	ParentB    = 11
+	ParentA    = 3
+	ParentB    = 4
 	maxTargets = 10 // tombstone / lock targets are base IDs 0..9
 )
 
@@ -307,7 +309,7 @@ func Gen(o GenOpts) *rapid.Generator[Corpus] {
 			s.Attrs = attrs()
 			if kind != uni.Regular {
 				p := rapid.IntRange(0, 1).Draw(t, "parent")
-				s.Parent = ParentA + p
+				s.Parent = [2]int{ParentA, ParentB}[p]
 				s.Owner = parOwner[p]
 				s.ParentLen = parLen[p]
 				switch kind {
